@@ -24,6 +24,7 @@ void scaleVec(std::vector<double> &v, double f);
 struct Pt { double x; double y; };
 double norm(const Pt &p);
 void shift(Pt *p, double dx);
+void tagValue(const std::string &name, double v);
 void clamp(double v, double lo, double hi);
 #include <cstddef>
 void save(void *addr, int type, size_t n);
